@@ -164,6 +164,27 @@ func OriginAtoms() []OriginAtom {
 	for _, b := range bad {
 		valid = append(valid, OriginAtom{Value: b, Malformed: true})
 	}
+	// near misses of the values the security rules single out (appended last: indices above stay put)
+	valid = append(valid,
+		OriginAtom{Value: "http://notlocalhost", Insecure: true},
+		OriginAtom{Value: "http://localhosts", Insecure: true},
+		OriginAtom{Value: "http://foo.localhost:*", Insecure: true},
+		OriginAtom{Value: "http://localhost.example.com", Insecure: true},
+		OriginAtom{Value: "ws://evil-localhost:9090", Insecure: true},
+		OriginAtom{Value: "https://notlocalhost"},
+		OriginAtom{Value: "ws://localhost"},
+		OriginAtom{Value: "httpss://example.com", Insecure: true},
+		OriginAtom{Value: "http://127.255.255.254:*"},
+		OriginAtom{Value: "http://128.0.0.1", Insecure: true},
+		OriginAtom{Value: "http://126.255.255.255", Insecure: true},
+		OriginAtom{Value: "http://[::2]", Insecure: true},
+		OriginAtom{Value: "http://[::1:1]", Insecure: true},
+		OriginAtom{Value: "http://example.com:443", Insecure: true},
+		OriginAtom{Value: "https://example.com:80"},
+		OriginAtom{Value: "https://*.example.co.uk"},
+		OriginAtom{Value: "https://*.uk", PSL: true},
+		OriginAtom{Value: "https://*.blogspot.com:8443", PSL: true},
+	)
 	return valid
 }
 
